@@ -2,6 +2,8 @@
 package table
 
 import (
+	"time"
+
 	"github.com/named-data/ndnd/dv/config"
 	enc "github.com/named-data/ndnd/std/encoding"
 )
@@ -48,3 +50,6 @@ func VerifXC18Entry(r *Rib, dest enc.Name) (has bool, l1, l2, nh1, nh2 uint64) {
 	}
 	return true, e.lowest1, e.lowest2, e.nextHop1, e.nextHop2
 }
+
+// VerifXC18Age makes a neighbour look as if it had last been heard of d earlier.
+func VerifXC18Age(ns *NeighborState, d time.Duration) { ns.lastSeen = ns.lastSeen.Add(-d) }
